@@ -25,7 +25,7 @@ func init() {
 			`R03.8 both series loops consult ShouldSave inside the loop, request and pop a reader checkpoint on that edge, and offer the popped checkpoint; ` +
 			`R03.9 every path from reading a SyncOp / bsdiff Control to SaveConsumer.Save passes the application of that message (a checkpoint never sits between consuming a message and writing its bytes). ` +
 			`R03.3 also demands that every other field of an entry writer that has a Flush method (a bufio.Writer between Write and the file) is flushed, error checked, before the Sync in Save. ` +
-			`R03.10 the slices the overlay bowl's Save stores in its checkpoint are the bowl's own lists or complete copies of them; R01.9 (shared) entry writers hand every byte on. NOT decided: that the four layers agree at every interruption point, content equality after resume, savior's decompressor checkpoints.`,
+			`R03.10 the slices the overlay bowl's Save stores in its checkpoint are the bowl's own lists or complete copies of them; R01.9 (shared) entry writers hand every byte on. R14.9 (shared; replaces the former shape test inside R03.4) every path to NewOverlayWriter(r, readOffset, ...) passes a Seek(x, SeekStart) on r with x one of the values merging into readOffset; R03.4 keeps: each offset handed over is the checkpoint's field of that name, or zero. NOT decided: that the four layers agree at every interruption point, content equality after resume, savior's decompressor checkpoints.`,
 		Assumptions: []string{"checkpoint types are those reachable from patcher.Checkpoint inside the module plus the payload types stored into BowlCheckpoint.Data / WriterCheckpoint.Data"},
 		Run:         runC03,
 	})
@@ -546,28 +546,33 @@ func runC03(c *core.Ctx) {
 				if now == nil {
 					c.Bad("R03.4", core.FnName(resume), "NewOverlayWriter(r, ReadOffset, f, OverlayOffset)", core.InstrPos(open), "no overlay writer is created from the checkpointed offsets")
 				} else {
-					_, n1, _ := core.FieldOf(now.Call.Args[1])
-					_, n3, _ := core.FieldOf(now.Call.Args[3])
-					c.Check(n1 == "ReadOffset" && n3 == "OverlayOffset" && fromCk(now.Call.Args[3]), "R03.4", core.FnName(resume), "overlay writer resumed with (ReadOffset, OverlayOffset)", core.InstrPos(now),
-						"both checkpointed offsets are handed to NewOverlayWriter in the right positions", "NewOverlayWriter is not given the checkpoint's ReadOffset and OverlayOffset (in that order)")
-					rseek := false
-					core.Instrs(resume, func(in ssa.Instruction) {
-						if cl, ok := in.(*ssa.Call); ok && cl.Call.IsInvoke() && cl.Call.Method.Name() == "Seek" && len(cl.Call.Args) == 2 {
-							_, n, ok := core.FieldOf(cl.Call.Args[0])
-							w, isW := core.ConstInt(cl.Call.Args[1])
-							if ok && n == "ReadOffset" && fromCk(cl.Call.Args[0]) && isW && w == 0 && core.InstrDominates(cl, now) {
-								rseek = true
+					// each offset handed over is the checkpoint's field of that name (or, merged with it, the zero of a start from scratch)
+					fieldOnly := func(v ssa.Value, want string) bool {
+						seen := false
+						for _, o := range core.Origins(v) {
+							if k, isK := core.ConstInt(o); isK {
+								if k != 0 {
+									return false
+								}
+								continue
 							}
+							_, n, ok := core.FieldOf(o)
+							if !ok || n != want || !fromCk(o) {
+								return false
+							}
+							seen = true
 						}
-					})
-					c.Check(rseek, "R03.4", core.FnName(resume), "old-file reader repositioned to ReadOffset", core.InstrPos(now),
-						"the old-file reader is seeked to the checkpointed read offset before the overlay writer resumes", "the old-file reader is not repositioned to the checkpointed ReadOffset: the resumed overlay compares new data with the wrong old bytes")
+						return seen
+					}
+					c.Check(fieldOnly(now.Call.Args[1], "ReadOffset") && fieldOnly(now.Call.Args[3], "OverlayOffset"), "R03.4", core.FnName(resume), "overlay writer resumed with (ReadOffset, OverlayOffset)", core.InstrPos(now),
+						"both checkpointed offsets are handed to NewOverlayWriter in the right positions", "NewOverlayWriter is not given the checkpoint's ReadOffset and OverlayOffset (in that order)")
 				}
 			}
 		}
 		c.Floor("R03.3", "entry writers owning an *os.File", nW, 2)
 	}
 
+	ruleOverlayReaderStandsWhereTold(c, "R14.9", 1)
 	ruleWorkListDedup(c)
 	ruleSavedListsAreWhole(c)
 	ruleEntryWritersWriteEverything(c)
